@@ -110,6 +110,14 @@ def programs():
                          "q": pt.einsum("ijk,ijk->jk", pt.reshape(a, (2, 1, 4), order="C"), b),
                          "r": pt.einsum("ij,ij->i", pt.reshape(c, (8, 1), order="F"), pt.reshape(b, (8, 3), order="F"))})
     reg("sum_of_three", {"A": (2, 2), "x": (2,), "y": (2,), "z": (2,)}, lambda A, x, y, z: {"o": A @ (x + y + z)})
+    # operations on the distribution path that are NOT linear: nothing may be pushed through them
+    # (one program per three outputs: every subset of einsums gets its own distribution policy)
+    reg("nonlinear_on_path_div", {"A": (2, 2), "x": (2,), "w": (2,)},
+        lambda A, x, w: {"fd": A @ (x // 2.0 - w), "fd2": A @ ((x + w) // 2.0), "rfd": A @ (2.0 // x + w)})
+    reg("nonlinear_on_path_pow", {"A": (2, 2), "x": (2,), "w": (2,)},
+        lambda A, x, w: {"md": A @ (x % 3.0 + w), "pw": A @ (x ** 2.0 + w), "sq": A @ (pt.sqrt(x * x + 1.0) + w)})
+    reg("nonlinear_on_path_sel", {"A": (2, 2), "x": (2,), "w": (2,)},
+        lambda A, x, w: {"ab": A @ (abs(x) - w), "wh": A @ (pt.where(pt.greater(x, w), x, w) - x)})
     return P
 
 
